@@ -380,3 +380,5 @@ def run(ctx):
     errdisc.check(ctx, 'C20.RD', 'C20', 27)
     from . import C06
     C06.r1b_path_sites(ctx, 'C20.R10')  # a handle operation on another thread announces its work: the connection task is woken after it queues anything
+    from .. import boundaries as _b
+    _b.check_predicates(ctx, 'C20.RP', 'C20')
